@@ -75,6 +75,7 @@ def build_daemon():
 # ------------------------------------------------------------------ TLC
 
 def java_cmd(xmx="3g"):
+    os.makedirs(os.path.join(OUT, "tmp"), exist_ok=True)     # out/ is git-ignored: a fresh clone does not have it
     return ["java", "-XX:+UseParallelGC", "-Xss1g", f"-Xmx{xmx}",
             "-Dtlc2.overrides.TLCOverrides=tlc2.overrides.TLCOverrides:tlc2.overrides.QvOverrides",
             f"-DTLA-Library={SPEC}{os.pathsep}{os.path.join(SPEC, 'trace')}{os.pathsep}{os.path.join(SPEC, 'mc')}{os.pathsep}{os.path.join(SPEC, 'tests')}",
